@@ -122,11 +122,63 @@ def explicit(tier, seed):  # noqa: C901
     yield case("final-error-cjk", [{"k": "raise", "cls": "ValueError", "msg": "\u6f22" * 2_500_000}])
 
 
+def more_cases(tier, seed):
+    i = 0
+    tail = [{"k": "wait", "s": 1}, {"k": "step", "val": "after"}, {"k": "wait", "s": 1}, {"k": "step", "val": "end"}]
+    # a user-supplied summary generator that fails for this result: whatever the SDK records instead, it is not the oversized payload
+    for cls in ("IndexError", "ValueError"):
+        for n in (L + 50, 2 * L):
+            yield {"label": "summary-generator-raises|child", "prog_seed": 15800 + i, "pattern": {"p": "plain"}, "max_inv": 12,
+                   "prog": {"body": [{"k": "try", "catch": "*", "body": {"k": "child", "body": [{"k": "step", "val": 1}], "result": {"big": n}, "cfg": {"summary_raises": cls}}}] + tail}}
+            i += 1
+            for kind in ("par", "map"):
+                brs = [{"body": [{"k": "step", "val": b}], "result": {"big": n // 2 + 100}} for b in range(3)]
+                cfg = {"summary_raises": cls, "preset": "all_completed"}
+                node = {"k": "par", "branches": brs, "cfg": cfg} if kind == "par" else {"k": "map", "items": [0, 1, 2], "per_item": brs, "body": [], "cfg": cfg}
+                yield {"label": "summary-generator-raises|" + kind, "prog_seed": 15800 + i, "pattern": {"p": "plain"}, "max_inv": 12,
+                       "prog": {"body": [{"k": "try", "catch": "*", "body": node}] + tail}}
+                i += 1
+    # a batch-level serdes and NO item serdes: the items fall back to the batch-level one, on the first run and when the summarised
+    # batch is rebuilt from its recorded children
+    for kind in ("par", "map"):
+        for n in (L // 2 + 800, 2000):
+            brs = [{"body": [{"k": "step", "val": j}], "result": {"big": n}} for j in range(3)]
+            cfg = {"serdes": "tagbr", "preset": "all_completed"}
+            node = {"k": "par", "branches": brs, "cfg": cfg} if kind == "par" else {"k": "map", "items": [0, 1, 2], "per_item": brs, "body": [], "cfg": cfg}
+            yield {"label": "%s-batch-level-serdes-only|%s" % (kind, "oversized" if n > 2000 else "small"), "prog_seed": 15850 + i, "pattern": {"p": "plain"}, "max_inv": 12,
+                   "prog": {"body": [node] + tail}}
+            i += 1
+    # a summarised context INSIDE a branch that parks on a timer while a sibling keeps the block running: the timer thread resumes the
+    # branch in the same process, and the second pass rebuilds the context from what this invocation holds in memory
+    for kind in ("par", "map"):
+        for inner in ("child", "map"):
+            for nsteps in (1, 3):
+                if inner == "child":
+                    big = {"k": "child", "body": [{"k": "step", "script": [{"do": "ok", "big": 100 * 1024}]} for _ in range(nsteps)], "result": {"big": L + 700}}
+                else:
+                    big = {"k": "map", "items": list(range(nsteps + 1)), "body": [], "cfg": None,
+                           "per_item": [{"body": [{"k": "step", "script": [{"do": "ok", "big": 100 * 1024}]}], "result": {"big": L // 2 + 700}} for _ in range(nsteps + 1)]}
+                b0 = [big, {"k": "wait", "s": 1}, {"k": "step", "val": "fin"}]
+                b1 = [{"k": "step", "script": [{"do": "ok", "val": "busy", "gate": "busy"}]}]
+                brs = [{"body": b0}, {"body": b1}]
+                node = {"k": "par", "branches": brs, "cfg": {"preset": "all_completed"}} if kind == "par" else {"k": "map", "items": [0, 1], "per_item": brs, "body": [], "cfg": None}
+                yield {"label": "summarised-context-passed-again-in-the-same-invocation|%s|%s" % (kind, inner), "prog": {"body": [node, {"k": "step", "val": "end"}]},
+                       "prog_seed": 15900 + i, "pattern": {"p": "plain"}, "max_inv": 14, "world": {"complete": {}, "timers": "all"},
+                       "holds": [{"match": {"kind": "gate", "name": "busy"}, "until": {"event": {"kind": "ret", "path": "0/b0/2"}}}],
+                       "opts": {"idle_s": 0.8, "hang_s": 3.0}}
+                i += 1
+
+
+def explicit_all(tier, seed):
+    yield from explicit(tier, seed)
+    yield from more_cases(tier, seed)
+
+
 SPEC = Spec(
     PROP,
     props=["C16"],
     level="exploration",
-    explicit=explicit,
+    explicit=explicit_all,
     quick={"plain": 0, "enum": 0, "rand": 0, "async": 0},
     thorough={"plain": 0, "enum": 0, "rand": 0, "async": 0},
     rule="result sizes limit-4 .. limit+50 and 2x limit for: a child context's own result (default config and custom summary generator), a "
